@@ -46,6 +46,14 @@ CHANGE = {
     "C18-6": ("FileName::ext()/dropExt() treat a leading dot of the last component as 'hidden file, no extension' while name()/setExt() keep the old rule", "last component starts with '.' and has no other dot"),
     "C19-6": ("TimeStamp::nextValue() as ++global; return global; (two atomic operations): two threads can receive the same stamp", "two threads inside nextValue(), one increment between the other's increment and read"),
     "C20-6": ("writeImage row buffer became a grow-only static thread_local vector and fwrite uses out.size(): rows written at the widest width seen so far", "same thread writes a narrower image after a wider one in the same format"),
+    "C04-7": ("std::less<vec_t<T,4>> flattened to one term per component; the w term is guarded by y,z equality only (x equality missing)", "a.x > b.x, y and z tie, a.w < b.w"),
+    "C06-7": ("quaternion-from-matrix, last (vz.z dominant) branch: real part computed as (vy.x - vx.y)*s - the inverse rotation", "rotation by more than 120 degrees about an axis closest to +-z, not exactly 180"),
+    "C07-7": ("SIMD rcp Newton step rewritten as (r+r) - (r*r)*a: r*r overflows / goes denormal for |x| < 2^-64 or > 2^65", "tiny or huge arguments; rcp_safe(0) returns -inf"),
+    "C08-7": ("IntrusivePtr::operator=(T*) releases the old reference before taking the new one", "sole owner assigned its own pointee (h = h.ptr) or an object kept alive only through the old one"),
+    "C09-7": ("Optional converting assignments from Optional<U>: empty source only clears the flag (payload never destroyed)", "engaged Optional<T> assigned from an empty Optional<U>, U != T"),
+    "C11-7": ("OwnedArray::resize re-seats the base pointer only when the vector reallocated: after resize(0) (pointer nulled, capacity kept) a resize within capacity leaves data() == nullptr with size() == n", "resize(n); resize(0); resize(m <= n)"),
+    "C14-7": ("TBB alignedMalloc fast path: scalable_malloc(size) when size is a multiple of the alignment", "TBB configuration, alignment >= 128, size > 1024 and a multiple of the alignment"),
+    "C01-7": ("enkiTS SplitAndAddTask pipe-full fallback drops the chunk it could not queue", "internal back end, caller's 256-slot pipe full: >= ~46 threads and nested parallel_for"),
     "C20-2": ("writePFM<vec3fa> walks the pixels with a stride of 3 floats instead of 4", "vec3fa images wider than one pixel"),
 }
 
